@@ -622,7 +622,9 @@ def c09(rec, st):
         if rec.exc is not None and rec.ctx.cb_raised:
             out.append(Viol("C09", "a", "the callback raised StopIteration but minimize raised %s instead of returning "
                             "status 3" % rec.exc["type"], key="exception_instead_of_status3"))
-        return out
+            return out
+        if rec.exc is None:
+            return out
     stmt, res = rec.stmt, rec.res
     if not consistent(stmt) or n_free_of(stmt) == 0:
         st["c09.skip_degenerate"] += 1
@@ -667,6 +669,15 @@ def c09(rec, st):
         if e.raised:
             s.add(3)
         sat.append(None if amb and not e.raised else (s if not amb else (s | {"amb"})))
+    if res is None:
+        # minimize raised: if the last evaluation satisfied a stopping request, the request was not honoured
+        s_last = sat[-1]
+        if s_last is not None and "amb" not in s_last and s_last and all(not x for x in sat[:-1] if x is not None) \
+                and all(x is not None and "amb" not in x for x in sat[:-1]):
+            out.append(Viol("C09", "a", "a stopping request (%s) was satisfied at evaluation %d but minimize raised %s "
+                            "instead of returning" % (sorted(s_last), len(evals), rec.exc["type"]),
+                            key="exception_instead_of_status:%s" % sorted(s_last)[0]))
+        return out
     status = res["status"]
     # a: forward
     first = None
@@ -908,6 +919,16 @@ def c12_inrun(rec, st, kappa_max=1e6):
                         out.append(Viol("C12", "d", "recorded objective value %r is not the barrier-clipped reply %r"
                                         % (op["fun_val"], cand.fun), key="recorded_value"))
                         return out
+                sl = refmodel.internal_slacks(stmt, cand.con) if stmt.get("nonlinear") else None
+                if sl is not None and not refmodel.contradictory_limits(stmt):
+                    st["c12.d_constraints_checked"] += 1
+                    got = (op["cub_val"], op["ceq_val"])
+                    for nm, want, have in (("inequality", sl[0], got[0]), ("equality", sl[1], got[1])):
+                        if len(want) != len(have) or any(not beq(float(a), float(b)) for a, b in zip(want, have)):
+                            out.append(Viol("C12", "d", "recorded %s constraint values %r are not the (barrier-clipped) "
+                                            "values %r the user functions returned at that point" % (nm, have[:4], want[:4]),
+                                            key="recorded_constraint_value"))
+                            return out
     return out
 
 
